@@ -34,8 +34,12 @@ def drive_rt(eid, kind, v, toks, rng, src=''):
         return ev, meta
     try:
         ev['res'] = enc.enc_cat(c)
-    except TypeError:
-        meta['non_category_result'] = repr(c)[:100]
+    except (TypeError, AttributeError):
+        # the reader returned an object that is not a category value: the text was accepted (ok stays True), the value is wrong
+        try:
+            meta['non_category_result'] = repr(c)[:100]
+        except Exception:
+            meta['non_category_result'] = 'an object of type %s that cannot even be printed' % type(c).__name__
         return ev, meta
     ptext = str(c)
     meta['printed'] = ptext
@@ -112,6 +116,10 @@ def run(tier):
             ft = gen.flat_toks(v, rng)
             if ft is not None:
                 n_flat += 1
+                # sometimes inside redundant bracket pairs around the whole text (the ambiguity is then inside a bracket)
+                for _ in range(rng.choice([0, 0, 1, 1, 2])):
+                    o, c_ = rng.choice([('(', ')'), ('<', '>')])
+                    ft = [gen.T(o)] + ft + [gen.T(c_)]
                 add(drive_rt(eid, 'flat', v, ft, rng, 'random'))
                 continue
         add(drive_rt(eid, 'deco', v, gen.deco_toks(v, rng), rng, 'random'))
